@@ -215,7 +215,7 @@ CD_FORMS = ["none", "dir", "-", "-N", "-bad", "two", "-P"]
 
 
 def ob_cd(nstack: int, form: int, s0: int, s1: int, s2: int, cwd_i: int, old_i: int, tgt: int, n: int,
-          auto_pushd: bool, size: int) -> Optional[str]:
+          auto_pushd: bool, size: int, cdp: bool = False) -> Optional[str]:
     if not (0 <= form < len(CD_FORMS) and 0 <= cwd_i < len(PLACES) and -1 <= old_i < len(PLACES)
             and 0 <= tgt < len(TARGETS) and 0 <= n <= 4 and 0 <= size <= 5):
         raise Skip()
@@ -230,12 +230,12 @@ def ob_cd(nstack: int, form: int, s0: int, s1: int, s2: int, cwd_i: int, old_i: 
         raise Skip()
     real0 = _real(cwd)
     fs = ModelFS(real0)
-    env = _install(fs, cwd, old, stack, auto_pushd, False, size)
+    env = _install(fs, cwd, old, stack, auto_pushd, False, size, cdpath=["/r/a"] if cdp else ())
     t = _pick(TARGETS, tgt)
     nn = _pick([0, 1, 2, 3, 4], n)
     args = {"none": [], "dir": [t], "-": ["-"], "-N": ["-" + str(nn)], "-bad": ["-x"], "two": ["a", "b"], "-P": ["-P", t]}[kind]
     res = D.cd(list(args))
-    tag = f"cd {' '.join(args)} from {cwd} stack={stack} OLDPWD={old}"
+    tag = f"cd {' '.join(args)} from {cwd} stack={stack} OLDPWD={old}" + (" CDPATH=['/r/a']" if cdp else "")
     c = _check_sync(env, fs, tag)
     if c:
         return c
@@ -246,6 +246,13 @@ def ob_cd(nstack: int, form: int, s0: int, s1: int, s2: int, cwd_i: int, old_i: 
         dest = HOME
     elif kind in ("dir", "-P"):
         r = _resolve(t, real0)
+        if cdp and kind == "dir" and (r is None or r[0] != "dir"):
+            # $CDPATH: a name that is not a directory relative to the cwd is looked up under each $CDPATH entry
+            # (xonsh documents: a relative directory is always preferred)
+            r2 = _resolve("/r/a/" + t, "/")
+            if r2 is not None:
+                t = "/r/a/" + t
+                r = r2
         if r is None or r[0] != "dir" or r[1] in NOX:
             err = True
         else:
@@ -605,6 +612,7 @@ _QB = ("quick tier canonicalises what an operation cannot depend on: rotation/se
        "target forms use stacks of <=1 entry, $OLDPWD varies only for `cd -`; thorough frees all of it; ")
 # quick partitions (canonicalised), thorough = everything free
 _CD_Q = ([dict(nstack=0, form=f, old_i=-1, cwd_i=0) for f in (0, 4, 5)] + [dict(nstack=0, form=2)]
+         + [dict(nstack=0, form=1, old_i=-1, cdp=True, auto_pushd=False)]
          + [dict(nstack=k, form=3, cwd_i=0, old_i=-1) for k in (0, 2)]
          + [dict(nstack=k, form=f, old_i=-1) for k in (0, 1) for f in (1, 6)])
 _PUSHD_Q = ([dict(nstack=k, form=0, cwd_i=0, gone=False) for k in (0, 1, 2)]
@@ -620,7 +628,8 @@ OBLIGATIONS = [
                symbolic="none (concrete validation of the reference model)"),
     Obligation("cd", ob_cd, bounds=_B + _QB + "cd with no arg / 10 target spellings / - / -N (0..4) / malformed / two args / -P; $AUTO_PUSHD; $DIRSTACK_SIZE 0..5",
                pre=_PRE + ["0 <= form < 7", "-1 <= old_i < 5", "0 <= tgt < 10", "0 <= n <= 4", "0 <= size <= 5"],
-               parts={"quick": _CD_Q, "thorough": [dict(nstack=k, form=f) for k in range(4) for f in range(7)]},
+               parts={"quick": _CD_Q, "thorough": [dict(nstack=k, form=f) for k in range(4) for f in range(7)]
+                      + [dict(nstack=k, form=1, cdp=True) for k in range(2)]},
                timeout={"quick": 240, "thorough": 1500}, symbolic="state indices, target, N, flags, size"),
     Obligation("pushd", ob_pushd, bounds=_B + _QB + "pushd with no arg / 10 targets / +N / -N / malformed; -n; $PUSHD_MINUS; $DIRSTACK_SIZE 0..5; target removed before chdir",
                pre=_PRE + ["0 <= form < 5", "0 <= tgt < 10", "0 <= n <= 4", "0 <= size <= 5"],
